@@ -631,6 +631,67 @@ def case_rederive(ctx, route, kind, case_seed, mode=None):
     return line, obs, shared, viol, tag
 
 
+# ----------------------------------------------------------------------------------------------------------
+# growing an ensemble from another one: extend / append (not one of the five routes of C06 — the ensemble histories of C14
+# own these operations — but the sharing / independence oracles apply to them unchanged)
+# ----------------------------------------------------------------------------------------------------------
+def case_grow(ctx, case_seed):
+    import molli as ml
+
+    rng = common.Prng(case_seed)
+    src = H.make_source(rng, "ConformerEnsemble", ml)
+    tag = {"case": "grow", "kind": "ConformerEnsemble", "case_seed": case_seed}
+    viol = []
+    if src.n_atoms == 0 or src.n_conformers == 0:
+        return None, None, None, viol, tag
+    target_kind = rng.choice(["empty", "empty", "nonempty"])
+    tgt = ml.ConformerEnsemble(ml.Connectivity(src)) if target_kind == "empty" else ml.ConformerEnsemble(src)
+    what = rng.choice(["extend(ensemble)", "extend(list of molecules)", "extend(list of conformers)", "append(conformer)", "append(molecule)"])
+    tag.update({"target": target_kind, "what": what})
+    label = f"{what} onto an {target_kind} ensemble"
+    snap0, hid0 = H.snapshot(src), H.hidden_state(src)
+    k0 = tgt.n_conformers
+    try:
+        with warnings.catch_warnings():
+            warnings.simplefilter("ignore")
+            if what == "extend(ensemble)":
+                tgt.extend(src); added = list(range(src.n_conformers))
+            elif what == "extend(list of molecules)":
+                tgt.extend([ml.Molecule(c) for c in src]); added = list(range(src.n_conformers))
+            elif what == "extend(list of conformers)":
+                tgt.extend([src[i] for i in range(src.n_conformers)]); added = list(range(src.n_conformers))
+            elif what == "append(conformer)":
+                i = rng.below(src.n_conformers); tgt.append(src[i]); added = [i]
+            else:
+                i = rng.below(src.n_conformers); tgt.append(ml.Molecule(src[i])); added = [i]
+    except Exception as e:
+        viol.append(("C06:route-raised", f"{label} raised {type(e).__name__}: {str(e)[:80]}"))
+        return None, None, None, viol, tag
+    if H.snapshot(src) != snap0:
+        viol.append(("C06:source-changed-by-derivation", f"{label} changed its source"))
+    hd = H.hidden_diff(hid0, H.hidden_state(src))
+    if hd:
+        viol.append(("C06:derivation-left-state-in-source", f"{label} left something in its source: {hd}"))
+    if tgt.n_conformers != k0 + len(added) or not all(
+            np.array_equal(np.asarray(tgt.coords[k0 + j]), np.asarray(src.coords[i])) for j, i in enumerate(added)):
+        viol.append(("C06:product-differs-from-sources:arrays", f"{label}: the conformers added are not those of the source"))
+    sh = [f"array{i} shares memory with source.array{j}" for i, r in enumerate(H.arrays_of(tgt)) for j, q in enumerate(H.arrays_of(src))
+          if np.shares_memory(r, q)]
+    if sh:
+        viol.append(("C06:copy-shares-state:arrays", f"{label}: {sh[:3]}"))
+    base = H.snapshot(tgt)
+    for r in H.arrays_of(src):
+        r[...] = r + 1.0
+    if H.snapshot(tgt) != base:
+        viol.append(("C06:copy-changed-by-editing-source:arrays", f"{label}: writing to the source's arrays changed the grown ensemble"))
+    base = H.snapshot(src)
+    for r in H.arrays_of(tgt):
+        r[...] = r + 3.0
+    if H.snapshot(src) != base:
+        viol.append(("C06:source-changed-by-editing-copy:arrays", f"{label}: writing to the grown ensemble's arrays changed the source"))
+    return None, None, None, viol, tag
+
+
 def run_case(ctx, t):
     H.FORCE.clear()
     H.FORCE.update(t.get("force", []))
@@ -642,6 +703,8 @@ def run_case(ctx, t):
 
 def _run_case(ctx, t):
     c = t["case"]
+    if c == "grow":
+        return case_grow(ctx, t["case_seed"])
     if c == "rederive":
         return case_rederive(ctx, t["route"], t["kind"], t["case_seed"], t.get("mode"))
     if c == "parts":
@@ -687,6 +750,8 @@ def plan_round(rng):
         for route in ("ctor", "pickle", "deepcopy", "cast"):
             out.append({"case": "rederive", "route": route, "kind": kind, "case_seed": seed()})
     out.append({"case": "copyas", "kind": "Molecule", "target": "ConformerEnsemble", "mode": "enslist", "case_seed": seed()})
+    for _ in range(6):
+        out.append({"case": "grow", "kind": "ConformerEnsemble", "case_seed": seed()})
     for kind in ("Structure", "Molecule"):
         for _ in range(4):
             out.append({"case": "concat", "kind": kind, "case_seed": seed()})
